@@ -282,6 +282,54 @@ def flag_programs(tier, seed, start):
     return ps, i
 
 
+def wrapper_flag_programs(tier, seed, start, prop="C14"):
+    """`~` and `>>>` on the SAME operator: `~X >>> inner <<< -> tapb` puts the whole wrapper (and what follows) into the next step,
+    `X >>> inner <<< -> tapb` leaves it in the current one - for each of the ten wrapper-capable operators, with explicit and implicit closing"""
+    from . import gen_c02
+    ps = []
+    i = start
+    for tok, inputs in gen_c02.WRAPPER_INPUTS.items():
+        t = inputs[-1] if tok in ("?>", "?|>", "?@", "?&!>") else inputs[0]
+        for deferred in (True, False):
+            for explicit in (True, False):
+                i += 1
+                pid = "p%04d" % i
+                ctx = Ctx(rng(seed, pid), itlen=2)
+                inp = ctx.value(t)
+                w = gen_c02.make_wrapper(ctx, t, 1, "one", explicit=explicit, want=tok)
+                if w is None:
+                    continue
+                w.deferred = deferred
+                mac = gen_c02.render_mac2([w])
+                cmpf = finish(w.out)
+                kb = ctx.k()
+                # (an implicitly closed wrapper ends at the step boundary: the tap after it is written with `~` and lands one step later)
+                tap = "-> tapb" if explicit else "~-> tapb"
+                if deferred:
+                    text = "join! { %s %s %s, %s -> tapa }" % (inp, mac, tap, kb)
+                    order = "first(140) < first(141)"
+                    what = "`~X >>>` belongs to the next step: the wrapper runs after the other branch finished the previous step"
+                elif explicit:
+                    text = "join! { %s %s %s, %s ~-> tapa }" % (inp, mac, tap, kb)
+                    order = "first(141) < first(140)"
+                    what = "`X >>>` without `~` belongs to the current step"
+                else:
+                    continue
+                L = list(ctx.decls)
+                L.append("let m = %s;" % text)
+                L.append("vassert!(cnt(140) == 1 && cnt(141) == 1 && %s, \"%s[%s]: %s\");" % (order, prop, pid, what))
+                L.append("reset_calls();")
+                L.append("let r = %s;" % w.ref(inp))
+                L.append("vassert!(%s && m.1 == %s, \"%s[%s]: value == documented chain\");" % (cmpf("m.0", "r"), kb, prop, pid))
+                L.append("vcover!(true, \"end reached\");")
+                wt = 1 + (40 if tok == "?&!>" else 0) + (4 if t[0] == "it" else 0)
+                if tier == "quick" and wt > 14:
+                    continue
+                ps.append(Program(pid, text, "    " + "\n    ".join(L), desc=dict(wrapper=tok, deferred=deferred, explicit_close=explicit, input_type=str(t)),
+                                  group="flags/wrapper", role=dict(kind="join"), unwind=12, weight=wt))
+    return ps, i
+
+
 def type_operands(tier, seed, start):
     """type operands of `=>[]` and `<->` whose own text contains commas and `>>` at the top level of the operand
     (inside angle brackets, which are not token groups), followed by operators that start with `>` or by a comma"""
@@ -443,6 +491,8 @@ def programs(tier, seed):
     a, i = flag_programs(tier, seed, i)
     ps += a
     a, i = type_operands(tier, seed, i)
+    ps += a
+    a, i = wrapper_flag_programs(tier, seed, 5000)
     ps += a
     a, i = adjacency(tier, seed, i)
     ps += a
